@@ -138,9 +138,10 @@ func (v Val) hasBigNumber() bool {
 }
 
 var (
-	nodeKindPool = []string{"A", "B", "C", "User Group", "Ünï", "a+b|c:1"}
+	// ("A,B" next to "A" and "B": a list of kinds and one kind that read alike when joined by a comma)
+	nodeKindPool = []string{"A", "B", "C", "User Group", "Ünï", "a+b|c:1", "A,B", "a"}
 	edgeKindPool = []string{"R", "S", "T", "Member Of", "Ré"}
-	graphNames   = []string{"default", "g1", "..", ".", " ", "Graph Two", "ünï-cødé", "a/b", "x%2Fy", "名前", "g.with.dots", "UPPER", "tab\tname"}
+	graphNames   = []string{"default", "g1", "..", ".", " ", "Graph Two", "ünï-cødé", "a/b", "x%2Fy", "名前", "g.with.dots", "UPPER", "tab\tname", "Default", "upper", "G1", "GRAPH TWO"}
 	keyPool      = []string{"name", "value", "k", "", "ключ", "a.b", "with space", "k\"q", "objectid", "😀"}
 	stringPool   = []string{"", "a", "plain text", "héllo wörld ✓", "😀𝄞 non-BMP", "line sep ", "<&>'", "quote\" back\\slash /", "ctl\x00\x01\x1f\n\t\r", "١٢٣", strings.Repeat("long·", 80)}
 	intPool      = []int64{0, 1, -1, 42, 1 << 31, 1<<53 - 1, 1 << 53, 1<<53 + 1, -(1<<53 + 1), math.MaxInt64, math.MinInt64, 1234567890123456789}
@@ -233,7 +234,8 @@ func genCase(t *rapid.T) Case {
 	c := Case{UID: rapid.IntRange(0, 4).Draw(t, "uid") != 0}
 	ng := rapid.SampledFrom([]int{1, 1, 2, 2, 3}).Draw(t, "ngraphs")
 	names := append([]string(nil), graphNames...)
-	nextNodeID := uint64(rapid.SampledFrom([]int{1, 1, 5, 1000, 1 << 33, 1 << 62}).Draw(t, "idbase"))
+	// (ids are unsigned 64-bit values: the upper half of the range prints as a negative number through graph.ID.String)
+	nextNodeID := rapid.SampledFrom([]uint64{1, 1, 5, 1000, 1 << 33, 1 << 62, 1<<63 - 3, 1 << 63, math.MaxUint64 - (1 << 24)}).Draw(t, "idbase")
 	nextEdgeID := uint64(rapid.SampledFrom([]int{1, 3, 700, 1 << 32}).Draw(t, "eidbase"))
 	maxNodes, maxEdges := 7, 9
 	var allN, allE []int
